@@ -3910,8 +3910,13 @@ class FuncSub(ValueFunc):
 
         if a.isDate():
             if b.isDate():
-                diff = to_oa_date(a.value) - to_oa_date(b.value)
-                return ValueInt(math.trunc(diff))
+                # whole days between the two dates, truncated toward zero;
+                # exact (the difference of two day numbers is not)
+                delta = a.value - b.value
+                day = datetime.timedelta(days=1)
+                if delta < datetime.timedelta(0):
+                    return ValueInt(-((-delta) // day))
+                return ValueInt(delta // day)
             return ValueDate(
                 to_date(to_oa_date(a.value) - args.getAsDecimal("b").value)
             )
